@@ -151,9 +151,18 @@ pub fn run(outdir: &Path, tier: &str, _seed: u64, shards: usize) {
 
     let mut cases = vec![];
     let mut dist = std::collections::BTreeMap::<String, usize>::new();
+    // a third rendering: SDL as tools print it, with the five built-in scalars declared explicitly
+    let printed = {
+        let mut q = schema.clone();
+        let mut defs: Vec<TypeDef> = ["Int", "Float", "String", "Boolean", "ID"].iter().map(|n| TypeDef::Scalar { name: n.to_string() }).collect();
+        defs.extend(q.defs.drain(..));
+        q.defs = defs;
+        q.render_sdl()
+    };
     for (fmt, ext, text) in [
         ("sdl", "graphql", schema.render_sdl()),
         ("json", "json", schema.render_json(&JsonVariant::plain())),
+        ("sdl-printed", "graphql", printed),
     ] {
         let oc = runner::generate(&text, ext, &qtext, &opts);
         let mods = runner::modules(&oc);
@@ -169,6 +178,12 @@ pub fn run(outdir: &Path, tier: &str, _seed: u64, shards: usize) {
                 })
             })
         };
+        // every name the module defines is defined once (a re-declared built-in scalar must not add a second alias)
+        let dup: Option<String> = m.and_then(|m| {
+            let mut names: Vec<&str> = m.items.iter().map(|i| i.name()).collect();
+            names.sort();
+            names.windows(2).find(|w| w[0] == w[1]).map(|w| w[0].to_string())
+        });
         for (pos, kind, name, t) in &plan {
             let sname = match *pos {
                 "response" => "ResponseData",
@@ -184,8 +199,9 @@ pub fn run(outdir: &Path, tier: &str, _seed: u64, shards: usize) {
             } else {
                 find_struct(sname).and_then(|fs| fs.iter().find(|f| &f.ident == name).map(|f| f.ty.clone()))
             };
+            let obs = if dup.is_some() { None } else { obs };
             let (obs_c, note) = match obs {
-                None => ("None".to_string(), format!("field {} missing in {} ({})", name, sname, match &mods { Err(e) => e.clone(), _ => "".into() })),
+                None => ("None".to_string(), match &dup { Some(d) => format!("the module defines `{}` twice", d), None => format!("field {} missing in {} ({})", name, sname, match &mods { Err(e) => e.clone(), _ => "".into() }) }),
                 Some(ty) => {
                     if *kind == "object" {
                         let (r, leaf) = replace_leaf(&ty, "Obj");
@@ -215,7 +231,7 @@ pub fn run(outdir: &Path, tier: &str, _seed: u64, shards: usize) {
         outdir,
         shards,
         json!({
-            "rule": format!("every well-formed type expression of list depth <= {} (all placements of !) x 5 kinds of named type x {{response field, variable, input field}} x {{SDL, introspection JSON}}, plus the fields of an object that narrows its interface's declarations, the members of an @oneOf input and variables with a default value (depth <= 3); non-trivial = has a list or a !; distinct by (format, position, kind, type)", depth),
+            "rule": format!("every well-formed type expression of list depth <= {} (all placements of !) x 5 kinds of named type x {{response field, variable, input field}} x {{SDL, introspection JSON, SDL with the built-in scalars declared}}, plus the fields of an object that narrows its interface's declarations, the members of an @oneOf input and variables with a default value (depth <= 3); non-trivial = has a list or a !; distinct by (format, position, kind, type)", depth),
             "exhaustive": true,
             "distribution": dist,
             "samples": samples,
